@@ -31,6 +31,7 @@ basicTokensMap = {
     "DATA": 0x83,
     "DIM": 0x84,
     "READ": 0x85,
+    "LET": 0x86,
     "GO": 0x87,
     "RUN": 0x88,
     "IF": 0x89,
@@ -45,6 +46,7 @@ basicTokensMap = {
     "DEFSTR": 0x92,
     "DEFINT": 0x93,
     "DEFSNG": 0x94,
+    "DEFDBL": 0x95,
     "ON": 0x96,
     "TUNE": 0x97,
     "ERROR": 0x98,
@@ -170,8 +172,10 @@ basicTokensMap = {
     "DSKF": 0xFFA7,
     "CVI": 0xFFA8,
     "CVS": 0xFFA9,
+    "CVD": 0xFFAA,
     "MKI$": 0xFFAB,
     "MKS$": 0xFFAC,
+    "MKD$": 0xFFAD,
     "LOC": 0xFFAE,
     "LOF": 0xFFAF,
     "SPACE$": 0xFFB0,
